@@ -57,19 +57,36 @@ macro_rules! uninit_add {
 macro_rules! pool {
     ($( $id:ident : $ty:ty => $name:expr, copy=$copy:tt, clone=$clone:expr, serde=$serde:expr, user=$user:expr; )*) => {
         #[derive(Clone, Copy, PartialEq, Eq, PartialOrd, Ord, Debug)]
-        pub enum Ty { $($id),* }
+        pub enum Ty {
+            $($id,)*
+            /// `crate::types::Blob<N>`: N bytes, align 1, `Copy` (adaptive family only).
+            Blob(usize),
+            /// `crate::types::Words<N>`: N × 8 bytes, align 8, `Copy`.
+            Words(usize),
+            /// `crate::types::Heavy<N>`: a `String` plus N × 8 bytes, align 8, owns memory.
+            Heavy(usize),
+        }
 
         pub const ALL_TYPES: &[Ty] = &[$(Ty::$id),*];
 
+        fn leak(s: String) -> &'static str { Box::leak(s.into_boxed_str()) }
+
         impl Ty {
-            pub fn name(self) -> &'static str { match self { $(Ty::$id => $name),* } }
-            pub fn is_copy(self) -> bool { match self { $(Ty::$id => $copy),* } }
-            pub fn is_clone(self) -> bool { match self { $(Ty::$id => $clone),* } }
-            pub fn is_serde(self) -> bool { match self { $(Ty::$id => $serde),* } }
-            pub fn is_user(self) -> bool { match self { $(Ty::$id => $user),* } }
-            pub fn size(self) -> usize { match self { $(Ty::$id => std::mem::size_of::<$ty>()),* } }
-            pub fn align(self) -> usize { match self { $(Ty::$id => std::mem::align_of::<$ty>()),* } }
-            pub fn needs_drop(self) -> bool { match self { $(Ty::$id => std::mem::needs_drop::<$ty>()),* } }
+            pub fn name(self) -> &'static str { match self { $(Ty::$id => $name,)*
+                Ty::Blob(n) => leak(format!("crate::types::Blob<{}>", n)),
+                Ty::Words(n) => leak(format!("crate::types::Words<{}>", n)),
+                Ty::Heavy(n) => leak(format!("crate::types::Heavy<{}>", n)),
+            } }
+            pub fn is_copy(self) -> bool { match self { $(Ty::$id => $copy,)* Ty::Blob(_) | Ty::Words(_) => true, Ty::Heavy(_) => false } }
+            pub fn is_clone(self) -> bool { match self { $(Ty::$id => $clone,)* _ => true } }
+            pub fn is_serde(self) -> bool { match self { $(Ty::$id => $serde,)* _ => true } }
+            pub fn is_user(self) -> bool { match self { $(Ty::$id => $user,)* _ => true } }
+            pub fn size(self) -> usize { match self { $(Ty::$id => std::mem::size_of::<$ty>(),)*
+                Ty::Blob(n) => n, Ty::Words(n) => 8 * n, Ty::Heavy(n) => std::mem::size_of::<String>() + 8 * n } }
+            pub fn align(self) -> usize { match self { $(Ty::$id => std::mem::align_of::<$ty>(),)*
+                Ty::Blob(_) => 1, Ty::Words(_) | Ty::Heavy(_) => 8 } }
+            pub fn needs_drop(self) -> bool { match self { $(Ty::$id => std::mem::needs_drop::<$ty>(),)*
+                Ty::Blob(_) | Ty::Words(_) => false, Ty::Heavy(_) => true } }
 
             /// Adds a datum of this type through the entry point that suits it.
             pub fn add<R: TypeResolver>(
@@ -96,7 +113,23 @@ macro_rules! pool {
                     } else {
                         b.add_datum::<$ty, _>(name)
                     }
-                }),* }
+                },)*
+                // const-generic user types of a size chosen at run time: everything the builder
+                // needs is given explicitly (rustc's own layout of the named type is what the
+                // generated assertions and the analyser compare against).
+                Ty::Blob(_) | Ty::Words(_) | Ty::Heavy(_) => {
+                    let mut size = self.size();
+                    let mut align = self.align();
+                    if let Some(f) = ov.size { size = f(size); }
+                    if let Some(f) = ov.align { align = f(align); }
+                    b.add_datum_override::<u8, _>(name, DatumDefinitionOverride {
+                        type_name: Some(self.name().to_owned()),
+                        size: Some(size),
+                        align: Some(align),
+                        allow_uninit: Some(uninit),
+                    })
+                }
+                }
             }
         }
     };
